@@ -659,6 +659,37 @@ theorem seeded_null_count_misses_nested_null :
 
 end
 
+/-! ## round 5: the per-type arms of the positional comparator (compare.go:229-395)
+
+The comparator theorems above take `Type.Compare` of a key column as integer order. The positional
+comparator has one hand-written arm per type and direction; `armCmp32` (Compare.lean) mirrors an arm
+by the two decisions it makes (accessor, minus sign). Written as in compare.go every arm is the declared
+order on the numbers the keys denote; the two seeded slips are witnesses of what goes wrong otherwise.
+Tie: c09CmpChecks / the merge cases run every arm on keys of its type on both sides of zero (L1 against
+the declared order, L2 `merge.cmp` against `cmpRows` on the decoded keys). -/
+
+theorem comparator_arm_is_the_declared_order (unsignedType desc : Bool) (a b : BitVec 32) :
+    PqModel.Compare.armCmp32 (!unsignedType) desc a b =
+      (if desc then PqModel.Compare.descending PqModel.Compare.cmpInt else PqModel.Compare.cmpInt)
+        (PqModel.Compare.denote32 unsignedType a) (PqModel.Compare.denote32 unsignedType b) :=
+  PqModel.Compare.armCmp32_is_declared_order unsignedType desc a b
+
+example : PqModel.Compare.armCmp32 true true (BitVec.ofInt 32 (-3)) (BitVec.ofInt 32 4) = 1 := by decide
+
+/-- seed C09-5b (the ascending DATE arm reads `uint32()`): -1 sorts after 1 -/
+theorem seeded_date_arm_misorders_negative_keys :
+    PqModel.Compare.armCmp32 false false (BitVec.ofInt 32 (-1)) (BitVec.ofInt 32 1) = 1 ∧
+    PqModel.Compare.cmpInt (PqModel.Compare.denote32 false (BitVec.ofInt 32 (-1)))
+      (PqModel.Compare.denote32 false (BitVec.ofInt 32 1)) = -1 :=
+  PqModel.Compare.arm_read_unsigned_misorders_negative_keys
+
+/-- seed C09-5a (the descending TIMESTAMP arm lost its minus sign): it is the ascending arm, on every pair -/
+theorem seeded_descending_arm_is_ascending (signed : Bool) (a b : BitVec 32) :
+    PqModel.Compare.armCmp32 signed false a b = - PqModel.Compare.armCmp32 signed true a b :=
+  PqModel.Compare.descending_arm_without_negation_is_ascending signed a b
+
+example : PqModel.Compare.armCmp32 true false (BitVec.ofInt 32 1) (BitVec.ofInt 32 2) = -1 := by decide
+
 /-! ## the abstract schedule theorems (MergeAbstract.lean) are instances of the above -/
 
 /-- the spike's `Merges` relation is `Emits` down to empty inputs (kept for reference) -/
